@@ -60,7 +60,7 @@ chk("C08", "core-exec", EX,
     "Only the class 'Build fails' is required for sets with a missing dependency.",
     "DESIGN.md §3 C08")
 chk("C09", "conc", EX,
-    "Go race detector over a repeated stress workload; recovered-panic / deadlock / result-class monitors; seeded controlled scheduler at user-code yield points; porcupine linearizability against a scope-tree model; real-time closed-means-closed rule",
+    "Go race detector over a repeated stress workload (shard workers run with GOMAXPROCS default/4/2/8 in turn); recovered-panic / deadlock / result-class monitors; seeded controlled scheduler at user-code yield points; porcupine linearizability against a scope-tree model; real-time closed-means-closed rule",
     "Held on 300 / 6 000 stress programs (4-16 goroutines x 20-60 ops: Get*/Resolve*/CreateScope/child CreateScope/Close/cancel/mid-run provider.Close) and 400 / 20 000 controlled schedules of 9 small programs; evidence reports distinct schedule traces, overlapping op pairs, race reports.",
     "Races are attributed to godi only when a conflicting access happens in godi code. Interleavings inside godi's critical sections are sampled.",
     "DESIGN.md §3 C09")
@@ -140,22 +140,22 @@ ENGINES = [
 # additions made while the checks were strengthened against seeded changes (DESIGN.md §8.5)
 EXTRA = {
  "C01": "Also: Remove/re-Add tail steps, intermediate Builds of the same collection, cross-scope concurrent first resolutions. An argument slot bound to a registered singleton that receives no instance (fault-free histories) is a finding. Form catalogue: every special constructor form as a minimal valid singleton set; multi-output singletons whose first invocation returns nil outputs; a worker goroutine started by a singleton constructor that asks for a singleton Build is constructing; a resolved value that is none of the constructor's outputs is an identity finding. Waves 15/16: members of one group registered around Remove steps (collection back to the same size); variadic shared-code constructors; sibling providers (the provider of an intermediate Build kept alive and re-used, judged against itself) and a service swapped for one of another lifetime between two Builds.",
- "C02": "Also: failing first constructions inside the window, cross-scope rounds, and initializers registered under a name (resolved by key and as a dependency, sequentially and from 2-8 goroutines) - still one run per scope. Multi-output constructors whose retry returns one object for two outputs; multi-output constructors with a grouped first output in the window workload. Form catalogue (scoped); resolvers queued behind a parked construction of a scoped service with and without a Close method when the scope is closed (event-steered); a scope opened and kept by a singleton constructor during Build (initializers run once there too). Waves 15/16: a goroutine started by a scope initializer resolves from the half-built scope (steered at a yield point); a live provider creates one more scope after its collection lost a named initializer. Wave 17: function-value-kind catalogue (shared-code constructors, variadic ones among them) judged for scoped registrations. Two scopes (siblings, root and child, parent and child) construct one service at once, held between 'first argument resolved' and 'constructor called': each gets its own scope's instances.",
+ "C02": "Also: failing first constructions inside the window, cross-scope rounds, and initializers registered under a name (resolved by key and as a dependency, sequentially and from 2-8 goroutines) - still one run per scope. Multi-output constructors whose retry returns one object for two outputs; multi-output constructors with a grouped first output in the window workload. Form catalogue (scoped); resolvers queued behind a parked construction of a scoped service with and without a Close method when the scope is closed (event-steered); a scope opened and kept by a singleton constructor during Build (initializers run once there too). Waves 15/16: a goroutine started by a scope initializer resolves from the half-built scope (steered at a yield point); a live provider creates one more scope after its collection lost a named initializer. Wave 17: function-value-kind catalogue (shared-code constructors, variadic ones among them) judged for scoped registrations. Two scopes (siblings, root and child, parent and child) construct one service at once, held between 'first argument resolved' and 'constructor called': each gets its own scope's instances. Wave 18: one scoped constructor under several As aliases (plain and keyed), different aliases asked for at the same moment (window and parked schedules).",
  "C03": "Also: identity-served-twice across groups/keys, concurrent sections across scopes. Form catalogue (transient); a constructor that received transients fails once and is asked again in the same scope (arguments as fresh as the first time); an optional slot while the transient provider fails. Waves 15/16: transient functions without a service result (runs == request sites, none at Build / CreateScope); sibling providers and swapped services (Remove + Add with the same registration count).",
  "C04": "Also: In structs with embedded structs (promoted fields stay untouched), value-equal instances told apart by pointer, collections used, extended and built again (optional dependency / group member registered after the first Build). Add calls refused half-way after a group member / identity / alias of theirs went in; several ready values of one type under aliases, keys and groups; a group of twelve members; variadic constructors; lookups under keys of another Go type with the same underlying string. Waves 15/16: group members around Remove steps for all lifetimes; variadic closures / method values / MakeFunc sharing code; swapped services; sibling providers. Wave 17: two parameter-object types with one name (function-local types) and different tags; Build / BuildWithContext / BuildWithOptions in turn.",
- "C05": "Also: verdict queries between incremental adds and after every rejected add (stale caches). Slot catalogue (core/slots.go): every unusual declaration form (two fields of one Go type, embedded fields, name+group fields, repeated parameters, ...) x every dependency slot, valid and with the cycle closed through that slot; Remove + re-Add by a constructor that depends on a remaining output of the same Add call. Waves 15/16: cycles through named functions without a result (all lifetimes, Build under a watchdog); a live provider after a failed Build and an edit that closes a cycle; a refused Build of one collection followed by a valid collection of the same types. Wave 17: a failed scoped / transient construction asked for again (directly, through consumers, through optional fields) under a watchdog; grow-sort-grow-sort on the graph; build doors.",
- "C06": "Also: intermediate Builds; sort-vs-mutation concurrency on the graph. Sets built once while valid, then a required dependency removed: same verdict as a fresh collection with the same registrations. Ready values (several of one type) named by what they were registered as; directed sets with an identity of a multi-identity registration removed and registered again. Waves 15/16: a singleton that opens (keeps / closes) a scope during Build next to initializers that need singletons, all 24 registration orders x repeated builds; the initializer of one build-time scope closing the other. Wave 17: the graph is sorted, grown by dependency-free providers through both doors, and sorted again.",
+ "C05": "Also: verdict queries between incremental adds and after every rejected add (stale caches). Slot catalogue (core/slots.go): every unusual declaration form (two fields of one Go type, embedded fields, name+group fields, repeated parameters, ...) x every dependency slot, valid and with the cycle closed through that slot; Remove + re-Add by a constructor that depends on a remaining output of the same Add call. Waves 15/16: cycles through named functions without a result (all lifetimes, Build under a watchdog); a live provider after a failed Build and an edit that closes a cycle; a refused Build of one collection followed by a valid collection of the same types. Wave 17: a failed scoped / transient construction asked for again (directly, through consumers, through optional fields) under a watchdog; grow-sort-grow-sort on the graph; build doors. Wave 18: every cyclic set is also reached in two steps - the longest buildable prefix is built and used first, the registrations closing the cycle follow, the Build under observation comes last.",
+ "C06": "Also: intermediate Builds; sort-vs-mutation concurrency on the graph. Sets built once while valid, then a required dependency removed: same verdict as a fresh collection with the same registrations. Ready values (several of one type) named by what they were registered as; directed sets with an identity of a multi-identity registration removed and registered again. Waves 15/16: a singleton that opens (keeps / closes) a scope during Build next to initializers that need singletons, all 24 registration orders x repeated builds; the initializer of one build-time scope closing the other. Wave 17: the graph is sorted, grown by dependency-free providers through both doors, and sorted again. Wave 18: a collection with a removal in its history against a collection that only ever saw what is left (optional dependency on the removed scoped service; with an intermediate Build; with re-registration).",
  "C07": "Also: directed multi-identity + Remove specs, intermediate Builds, optional / alias / group dependency forms. Slot catalogue: every unusual declaration form x every slot, valid and captive through that slot. Ready values (plain, keyed, grouped, aliased) as the depended-on registration in every lifetime pair; a captive consumer registered after a provider of the collection retried a multi-output constructor (second Build of the same collection). Wave 16: swapped services whose second Build must be refused (first provider closed or alive); sibling providers in the random sets. Wave 17: every verdict through Build, BuildWithContext, BuildWithOptions(nil) and BuildWithOptions(BuildTimeout) in turn.",
  "C08": "Also: Remove of the first sibling of a multi-output registration, required keyed dependencies on the built-in types (never satisfiable). Slot catalogue (valid / that slot's provider missing); a singleton constructor that opens a scope through the injected Provider during Build while a scope initializer takes a singleton that does not exist yet. Variadic constructors with the slice type registered (accepted, resolvable) and not registered (whatever Build accepts does not fail with 'service not found'). Waves 15/16: zero-valued single results of value types (a struct that only carries unregistered optional dependencies); swapped services; a refused Build of ANOTHER collection right before a valid one (process-wide state). Wave 17: build doors.",
  "C09": "Also: shared-code constructors under overlap, provider.Close overlapping CreateScope on a still-open scope, worker watchdog for operations that never return. A fixed stress spec of multi-output constructors (grouped first output, keyed multi-return) in every lifetime. The root scope closed through its own handle while the provider is closed; close overlaps in an aged process (more than a million goroutines started); a Close method that joins a worker resolving from the scope being closed.",
- "C10": "Also: BuildWithContext cancelled from inside each Build-time invocation, aliases / multi-alias registrations, value-equal instances (tracked by pointer), disposables handed out by value (handle 0, zero-valued struct), Close overlapping in-flight constructions. Form catalogue in every lifetime; one disposable instance under two identities in the Close-overlap engine; outputs of registrations removed after the Add call; one failing Close per execution. Waves 15/16: re-entrant closes through grouping scopes that own nothing (a Close that never returns = leaked); an interface-typed registration whose constructor alternates between an implementation with and without Close. Wave 17: container-created disposables of non-comparable types (slice, map) under As aliases (fix 923d501).",
+ "C10": "Also: BuildWithContext cancelled from inside each Build-time invocation, aliases / multi-alias registrations, value-equal instances (tracked by pointer), disposables handed out by value (handle 0, zero-valued struct), Close overlapping in-flight constructions. Form catalogue in every lifetime; one disposable instance under two identities in the Close-overlap engine; outputs of registrations removed after the Add call; one failing Close per execution. Waves 15/16: re-entrant closes through grouping scopes that own nothing (a Close that never returns = leaked); an interface-typed registration whose constructor alternates between an implementation with and without Close. Wave 17: container-created disposables of non-comparable types (slice, map) under As aliases (fix 923d501). Wave 18: the provider closed by a singleton constructor during Build (the instance the closing constructor returns, one created before, one never reached; fix ad06ea1).",
  "C11": "Also: close-vs-close overlaps (leaf Close or context watcher parked inside each disposable Close while parent / grandparent / provider is closed; top-level scope being closed vs provider.Close) and the first-resolution race. CreateScope overlapping the Close of its parent / an ancestor at every callback and internal yield point, judged by the order rules. Close methods that close their own scope / an ancestor (directly, by cancel, from a descendant's instance) with the order judged; one alias of a singleton removed; the order oracle over histories in which a constructor fails once and the request is repeated; the root scope closed through its handle; aged-process overlaps; sibling churn. Wave 15: re-entrant closes with two sibling child scopes, grouping scopes. Wave 17: scopes created ON the root-scope handle and below; the handle closed: descendants first.",
- "C12": "Also: derived-context children, slow Close hooks, the close-is-complete clause for the last-returning call of a group of overlapping Closes, graceful-shutdown plans. Scopes whose context derives from the provider's root context (children of the root scope, provider scopes on the injected root context) with failing Close methods. Close called from inside a Close method: own scope, ancestor, provider; instance in a nested, top-level or the root scope; closed directly / by cancel / by a parent; a sibling instance failing (the interrupted Close reports it); aged-process overlaps; CreateScope overlapping a Close with initializers that built disposables. Waves 15/16: ready values with a failing Close under aliases (removed / only a later alias resolved): error iff a Close method failed, ownership independent of the alias; sibling scopes on a context derived from another scope's context (fix 9e88956). Wave 17: grandchildren on their uncles' contexts (both fail: the aggregate lists both).",
- "C13": "Also: ancestor Close overlapping an in-flight Close of a descendant (probe at the return of the ancestor's Close), descendant-survives-close after overlapping CreateScope. Two or three more resolvers of the same scoped service queued behind the in-flight construction when the Close arrives. The re-entrant fixture's hang clause (provider closed from the Close of a top-level / root-scope instance); waiters behind scoped services with dependencies, leaves with and without Close; instances under two aliases in every overlap scenario. Waves 15/16: nested scope creation from an initializer while the provider closes (judged for C13 too); two providers behind nested web scope middlewares (in-flight request, closed provider); the two-goroutine re-entrant close is the one KNOWN-FINDING. Wave 17: descendants of the root-scope handle report the disposed error after the handle was closed.",
- "C14": "Also: Close-error variants, contexts already done at creation, and a create-vs-close race workload (a parent's Close racing the creation of its children under contention on the provider's bookkeeping; weak-pointer oracle with the provider still open). A unit of work that closes its own scope; requests rejected by a configured middleware in all five web integrations; groups with members of different lifetimes; the scope middleware installed on two levels; an instance whose Close waits for a worker bound to the scope's context. Waves 15/16: scope creations refused while the provider closes, under an application context of its own type (goroutines back to baseline); two containers sharing a constructor with an optional field (nothing of a closed scope is handed out again). Wave 17: one instance under two identities (As aliases, one object returned for two outputs), transient / scoped, in cycles: collectable with the provider open. Cycles whose Close reports an error (a scoped / transient instance fails to close; nested scope too), under the provider and under a long-lived parent scope: scopes and instances collectable.",
+ "C12": "Also: derived-context children, slow Close hooks, the close-is-complete clause for the last-returning call of a group of overlapping Closes, graceful-shutdown plans. Scopes whose context derives from the provider's root context (children of the root scope, provider scopes on the injected root context) with failing Close methods. Close called from inside a Close method: own scope, ancestor, provider; instance in a nested, top-level or the root scope; closed directly / by cancel / by a parent; a sibling instance failing (the interrupted Close reports it); aged-process overlaps; CreateScope overlapping a Close with initializers that built disposables. Waves 15/16: ready values with a failing Close under aliases (removed / only a later alias resolved): error iff a Close method failed, ownership independent of the alias; sibling scopes on a context derived from another scope's context (fix 9e88956). Wave 17: grandchildren on their uncles' contexts (both fail: the aggregate lists both). Wave 18: derived-context shapes with scopes opened from the provider's root scope.",
+ "C13": "Also: ancestor Close overlapping an in-flight Close of a descendant (probe at the return of the ancestor's Close), descendant-survives-close after overlapping CreateScope. Two or three more resolvers of the same scoped service queued behind the in-flight construction when the Close arrives. The re-entrant fixture's hang clause (provider closed from the Close of a top-level / root-scope instance); waiters behind scoped services with dependencies, leaves with and without Close; instances under two aliases in every overlap scenario. Waves 15/16: nested scope creation from an initializer while the provider closes (judged for C13 too); two providers behind nested web scope middlewares (in-flight request, closed provider); the two-goroutine re-entrant close is the one KNOWN-FINDING. Wave 17: descendants of the root-scope handle report the disposed error after the handle was closed. Wave 18: the on-ancestor sandwich also for CreateScope; a scope handed out by a CreateScope overlapping the cascade refuses use once the closing call returned.",
+ "C14": "Also: Close-error variants, contexts already done at creation, and a create-vs-close race workload (a parent's Close racing the creation of its children under contention on the provider's bookkeeping; weak-pointer oracle with the provider still open). A unit of work that closes its own scope; requests rejected by a configured middleware in all five web integrations; groups with members of different lifetimes; the scope middleware installed on two levels; an instance whose Close waits for a worker bound to the scope's context. Waves 15/16: scope creations refused while the provider closes, under an application context of its own type (goroutines back to baseline); two containers sharing a constructor with an optional field (nothing of a closed scope is handed out again). Wave 17: one instance under two identities (As aliases, one object returned for two outputs), transient / scoped, in cycles: collectable with the provider open. Cycles whose Close reports an error (a scoped / transient instance fails to close; nested scope too), under the provider and under a long-lived parent scope: scopes and instances collectable. Wave 18: per-cycle scope trees opened from the provider's root scope (host=root).",
  "C15": "Also: constructor error values of several shapes (stateless zero-valued struct / int errors, wrapped, chains containing godi's own BuildError), constructors with concrete error result types, concurrent waiters behind a failing construction. BuildWithContext cancelled inside the first / middle / last constructor of the Build: no panic and nothing constructed stays undisposed. BuildWithOptions with a constructor failing after the time limit elapsed; result lists beyond the usual shapes ((Out, T, error), (*Out, T, error), (T, T, T, error)); a Build whose clean-up fails too; module options applied to a nil Collection; the nil output of a multi-output constructor requested first (the sibling it produced stays owned); an optional dependency whose provider fails once. Waves 15/16: panic values that read like reflect / runtime messages; failure classes after a second Build of an edited collection. Wave 17: variadic constructors that panic / fail (every lifetime, Build and BuildWithOptions for singletons, direct and through modules), asked again afterwards; build doors.",
  "C16": "Also: application-scope request contexts, a second differently configured ScopeMiddleware/Handle instance per case, and the scope-closed-at-unwind clause (evaluated at the moment the request leaves the middleware chain, aborts included). Exit path 'initfail' (a scope initializer of the real provider fails for the request); nil values of the handler options that are documented as 'the default is used'; fallback handlers (gin NoRoute/NoMethod, echo RouteNotFound, fiber catch-all) behind an engine-wide middleware; requests rejected by a configured middleware; one *http.Request dispatched several times; the middleware installed on two levels. Wave 16: two providers: nested middlewares and blue/green providers of one collection (net/http, chi, gin, echo). Wave 17: the request's scope closed (directly / by cancelling the request context) between the scope middleware and Handle, controllers of every lifetime (net/http, chi, gin, echo).",
- "C17": "Also: result-object fields with both name and group (must be rejected), RemoveKeyed with nil / empty-string / non-string keys. RemoveKeyed with int keys equal to group positions; registrations without a result (initializers) with ordinary services before them and ToSlice/Count compared across every Build; Builds refused in the middle of a sequence, issued for real under a watchdog. Wave 16: refused-build sequences with optional captive dependencies, judged by the model of package core when the fresh twin fails too.",
+ "C17": "Also: result-object fields with both name and group (must be rejected), RemoveKeyed with nil / empty-string / non-string keys. RemoveKeyed with int keys equal to group positions; registrations without a result (initializers) with ordinary services before them and ToSlice/Count compared across every Build; Builds refused in the middle of a sequence, issued for real under a watchdog. Wave 16: refused-build sequences with optional captive dependencies, judged by the model of package core when the fresh twin fails too. Wave 18: in the directed refused-build sequences a Build that succeeds where the reference refuses is compared with a fresh twin holding exactly the surviving registrations; Build-ok / removal only / Build sequences.",
  "C18": "Also: reserved types in every derived registration form (As, multi-return, result-object fields incl. grouped), concurrent sections, nil-context children inheriting cancellation and deadline. Built-in injectables requested through fields tagged optional. The three Build doors (Build / BuildWithContext cancelled or timed out after start-up / BuildWithOptions) and the root scope's context; built-ins as embedded parameter-object fields; the context installed by an upstream middleware is what the request's scope is created with (five integrations); the collection built again while the first provider is in use. Wave 16: a context that carries a scope of another provider passed to CreateScope.",
  "C19": "Also: deferred adds in batches (removes / clears while pending, one completing DetectCycles), concurrent sort-vs-mutation. One provider value registered again after RemoveProvider of a neighbour. Wave 16: a bystander graph sharing the main graph's provider values, never touched, compared after every step. Wave 17: identities that share type and key and differ in the group alone.",
  "C20": "Also: caller slice reuse, RemoveKeyed key values that are not names, the same module tree applied to several fresh collections concurrently. The ModuleError chain is also walked with Unwrap; grouping closures that annotate their children's error with their own error type (annotation must stay reachable). Modules with the empty name; nodes whose closures annotate errors. Wave 15: every generated tree also applied to a nil Collection.",
